@@ -20,7 +20,7 @@ from .mapper import kval, ev_list, rep_tuple
 from .values import (Cell, Ref, Adt, VecV, EnumC, Sym, Opaque, Panic, Unsupported, PathInfeasible, Violation,
                      UNIT, ok, err, some, none, clone_val)
 
-PROPS = ('C10', 'C11', 'C12', 'C20')
+PROPS = ('C10', 'C11', 'C12', 'C20', 'C19')
 NCPU = int(os.environ.get('VERIF_JOBS', '16'))
 F_LOOP = None
 
@@ -536,16 +536,20 @@ def _w_unit(arg):
             stats['panics'] += 1
             c = concretise_script(spec, env, it)
             viols.append(('PANIC', 'the loop panicked: ' + o['panic'], None, c, [list(s) for s in env.script if s[0] != 'now']))
-        if o['viol'] is not None:
+        if env.mon.c19 is not None and sum(1 for v in viols if v[0] == 'C19') < 3:
             c = concretise_script(spec, env, it)
-            viols.append(o['viol'] + (c, None))
+            viols.append(('C19', env.mon.c19[0], env.mon.c19[1], c, None))
+        if o['viol'] is not None:
+            if sum(1 for v in viols if v[0] == o['viol'][0]) < 4:
+                c = concretise_script(spec, env, it)
+                viols.append(o['viol'] + (c, None))
         elif random.random() < 0.01 and len(samples) < 3:
             c = concretise_script(spec, env, it)
             samples.append({'script': c[1] if c else None, 'sends': env.mon.nsends, 'chords': env.mon.nchords})
         if time.time() - t0 > budget_s:
             stats['timed_out'] = bool(work)
             break
-    return sid, stats, viols[:6], samples
+    return sid, stats, viols[:12], samples
 
 
 def make_units(spec, sid, cut_at):
@@ -630,9 +634,11 @@ class NativeRef:
         return evs, rep
 
 
-def judge_native_log(native, lay, res):
-    """run the same LoopMonitor over the native call log. returns None | (prop, what, ctx)"""
+def judge_native_log(native, lay, res, info=None):
+    """run the same LoopMonitor over the native call log. returns None | (prop, what, ctx); info['mon'] = the monitor"""
     mon = LoopMonitor(ConcQ(), NativeRef(native, lay))
+    if info is not None:
+        info['mon'] = mon
     mon.absorbing = any(m.get('absorbing') for m in lay)
     try:
         for e in res['log']:
@@ -710,7 +716,13 @@ def confirm(native, spec, viol):
     case['native_result'] = res['result']
     # C10(a): unread notified events at a poll are visible in the script itself: the native loop polls while
     # the script still holds the events of the previous notification
-    found = judge_native_log(native, lay, res)
+    info = {}
+    found = judge_native_log(native, lay, res, info)
+    if prop == 'C19':
+        c19 = info['mon'].c19
+        if c19 is not None:
+            return True, case, 'C19: %s %r; native call log in the replay file' % c19
+        return False, case, 'the native run writes no redundant event (symbolic: %s)' % what
     if found is None and res.get('diverged'):
         found = ('DIVERGED', res['diverged'], None)
     if found is not None and found[0] == 'DIVERGED' and prop == 'C10' and 'unread' in what:
@@ -817,7 +829,7 @@ def run(tier, seed):
             if stats.get('timed_out'):
                 timed_out_units += 1
             for v in vs:
-                if len(viols[sid]) < 30:
+                if sum(1 for x in viols[sid] if x[0] == v[0]) < 12:
                     viols[sid].append(v)
             if len(samples[sid]) < 3:
                 samples[sid].extend(smp)
